@@ -26,6 +26,7 @@ def dispatch (cfg : Cfg) (b : Block) : String :=
   | "convseq" => (runConvSeq b).line b.kind b.id "C10"
   | "hist" => (runHist cfg.fl b).line b.kind b.id ""
   | "alias" => (runAlias b).line b.kind b.id "C08"
+  | "probe" => (runProbe b).line b.kind b.id ""
   | "redef" => (runRedef cfg.fl b).line b.kind b.id ""
   | "sig" => (runSig b).line b.kind b.id "C14"
   | "vset" => (runVset b cfg.vsetValidates).line b.kind b.id "C15"
